@@ -66,32 +66,33 @@ type c20Ref struct {
 }
 
 type c20Scenario struct {
-	Entries    int             `json:"entries"`
-	First      []c20Entry      `json:"first_entries"`
-	PlainBytes int             `json:"plain_bytes"`
-	Gzip       bool            `json:"gzip"`
-	PayloadLen int             `json:"payload_bytes"`
-	Fault      string          `json:"fault"`
-	FaultAt    int             `json:"fault_offset"`
-	Sweep      string          `json:"sweep,omitempty"`
-	Entry      string          `json:"entry_point"`
-	CapEntries int             `json:"entry_channel_capacity"`
-	CapErrors  int             `json:"error_channel_capacity"`
-	Consumer   string          `json:"consumer"`
-	Reader     string          `json:"reader_policy"`
-	RefClass   string          `json:"reference_class"`
-	RefEntries int             `json:"reference_entries_completed"`
-	RefErr     string          `json:"reference_error,omitempty"`
-	BeforeDmg  int             `json:"entries_complete_before_damage"`
-	GotEntries int             `json:"received_entries"`
-	GotErrors  int             `json:"received_errors"`
-	ClosedE    bool            `json:"entries_closed"`
-	ClosedX    bool            `json:"errors_closed"`
-	End        string          `json:"scheduler_end"`
-	DocHead    string          `json:"document_head,omitempty"`
-	Errors     []string        `json:"received_error_texts,omitempty"`
-	DamageCtx  string          `json:"plaintext_around_first_damaged_byte,omitempty"`
-	Panics     []core.PanicRec `json:"panics,omitempty"`
+	Entries     int             `json:"entries"`
+	First       []c20Entry      `json:"first_entries"`
+	PlainBytes  int             `json:"plain_bytes"`
+	Gzip        bool            `json:"gzip"`
+	GzipMembers int             `json:"gzip_members,omitempty"`
+	PayloadLen  int             `json:"payload_bytes"`
+	Fault       string          `json:"fault"`
+	FaultAt     int             `json:"fault_offset"`
+	Sweep       string          `json:"sweep,omitempty"`
+	Entry       string          `json:"entry_point"`
+	CapEntries  int             `json:"entry_channel_capacity"`
+	CapErrors   int             `json:"error_channel_capacity"`
+	Consumer    string          `json:"consumer"`
+	Reader      string          `json:"reader_policy"`
+	RefClass    string          `json:"reference_class"`
+	RefEntries  int             `json:"reference_entries_completed"`
+	RefErr      string          `json:"reference_error,omitempty"`
+	BeforeDmg   int             `json:"entries_complete_before_damage"`
+	GotEntries  int             `json:"received_entries"`
+	GotErrors   int             `json:"received_errors"`
+	ClosedE     bool            `json:"entries_closed"`
+	ClosedX     bool            `json:"errors_closed"`
+	End         string          `json:"scheduler_end"`
+	DocHead     string          `json:"document_head,omitempty"`
+	Errors      []string        `json:"received_error_texts,omitempty"`
+	DamageCtx   string          `json:"plaintext_around_first_damaged_byte,omitempty"`
+	Panics      []core.PanicRec `json:"panics,omitempty"`
 }
 
 func c20Esc(t *core.Tape, s string) string {
@@ -349,6 +350,12 @@ func (c20) Run(t *testing.T, tape *core.Tape, rcx *RunCtx) *core.Result {
 	payload := plain
 	if sc.Gzip {
 		payload = gz(plain)
+		// one compressed document in four is a multi-member gzip stream
+		if key := core.Mix(uint64(rcx.Index), 0xc20); !sweep && key%4 == 1 {
+			payload = gzMulti(plain, key)
+			sc.GzipMembers = 2 + int(core.Mix(key, 1)%3)
+			res.Count("probe_multi_member_gzip", 1)
+		}
 	}
 	if !sweep && fault != "none" {
 		// bias some offsets towards the tail (the closing tags) and the head
